@@ -60,8 +60,12 @@ def post_sum_piece(wavelength, compound, result):
     n = sum(atoms.values())
     m = compound.mass
     if abs(num_atoms - n) > 1e-12 * abs(n) or abs(molar_mass - m) > 1e-12 * abs(m):
+        _state['breach'] = ('_sum_piece(%s): num_atoms %r (sum of counts %r), molar_mass %r (formula mass %r)'
+                            % (compound, num_atoms, n, molar_mass, m))[:600]
         return False
     if atoms and (np.shape(b_c) != np.shape(wavelength) or np.shape(sigma_s) != np.shape(wavelength)):
+        _state['breach'] = ('_sum_piece(%s): b_c shape %r, sigma_s shape %r, wavelength shape %r'
+                            % (compound, np.shape(b_c), np.shape(sigma_s), np.shape(wavelength)))[:600]
         return False
     return True
 
@@ -78,10 +82,18 @@ def post_nonnegative(number_density, wavelength, b_c, sigma_s, result):
     if np.any(np.asarray(sigma_s) - 4 * math.pi / 100 * np.abs(np.asarray(b_c)) ** 2 < 0):
         _state['n']['reach.direct_clip_engaged'] += 1
     (sld_re, sld_im, sld_inc), (coh, abs_, inc), pen = result
-    for x in (sld_im, sld_inc, coh, abs_, inc, pen):
+    for name, x in zip(('sld_im', 'sld_inc', 'coh_xs', 'abs_xs', 'inc_xs', 'penetration'), (sld_im, sld_inc, coh, abs_, inc, pen)):
         if not np.all(np.asarray(x, dtype=float) >= 0):
+            _state['breach'] = ('%s = %r for number_density=%r wavelength=%r b_c=%r sigma_s=%r'
+                                % (name, x, number_density, wavelength, b_c, sigma_s))[:600]
             return False
     return True
+
+
+def _breach_text(exc):
+    lines = [l for l in str(exc).splitlines() if l.strip() and not l.startswith('OLD was')]
+    head = ' '.join(lines[1:2] or lines[:1])[:200]
+    return '%s [%s]' % (head, _state.pop('breach', 'no values recorded'))
 
 
 def attach_contracts(nsf):
@@ -98,6 +110,20 @@ def attach_contracts(nsf):
     nsf._pvmon_c17_contracts = True
 
 
+def _watch_first(ctx, reach, func, texts, label):
+    """Watch the first source line of *func* matching one of *texts*; a source that no longer contains any of
+    them must not stop the check (the reach requirement is then dropped and the fact is noted)."""
+    for text in texts:
+        try:
+            reach.watch_line_matching(func, text, label)
+        except (LookupError, OSError, TypeError):
+            continue
+        _state['watched'].add(label)
+        return True
+    ctx.note('no source line for reach counter %s in %s' % (label, getattr(func, '__qualname__', func)))
+    return False
+
+
 def setup(ctx):
     import periodictable as pt
     from periodictable import nsf
@@ -109,11 +135,13 @@ def setup(ctx):
     reach = Reach()
     reach.watch(nsf.neutron_composite_sld, 'neutron_composite_sld')
     reach.watch(calc, '_compute')
-    reach.watch_line_matching(calc, 'return 0, 0, 0', 'branch.compute_vacuum')
-    reach.watch_line_matching(calc, 'sigma_i = np.maximum', 'branch.compute_body')
     sbw = nsf.Neutron.scattering_by_wavelength
-    reach.watch_line_matching(sbw, 'return ones*self.b_c_complex', 'branch.constant_b_c')
-    reach.watch_line_matching(sbw, 'np.interp(', 'branch.energy_table')
+    _state['watched'] = set()
+    for func, texts, label in ((calc, ('return 0, 0, 0',), 'branch.compute_vacuum'),
+                               (calc, ('return sld_re, sld_im, sld_inc', 'sld_inc = ', 'sigma_i = '), 'branch.compute_body'),
+                               (sbw, ('return ones*self.b_c_complex', 'if self.nsf_table is None'), 'branch.constant_b_c'),
+                               (sbw, ('np.interp(', 'return b_c, sigma_s'), 'branch.energy_table')):
+        _watch_first(ctx, reach, func, texts, label)
     try:
         reach.start()
     except Exception as exc:
@@ -340,9 +368,15 @@ def check_composite(ctx, case):
         if w['kind'] == 'zero_dim':
             # sibling for the classifier: the same block with the wavelength as a Python float
             sink = _Sink()
-            _run_block(sink, case, mats, dict(w, kind='float'), [], {})
+            try:
+                _run_block(sink, case, mats, dict(w, kind='float'), [], {})
+            except ContractBreach as exc:
+                sink.msgs.append(str(exc))
             extra['sibling_scalar_ok'] = not sink.msgs
-        _run_block(ctx, case, mats, w, sig, extra)
+        try:
+            _run_block(ctx, case, mats, w, sig, extra)
+        except ContractBreach as exc:
+            ctx.violation('in-process postcondition failed: %s' % _breach_text(exc), symptom='contract', **extra)
     ctx.distinct_case(tuple(sig))
 
 
@@ -365,7 +399,7 @@ def _run_block(ctx, case, mats, w, sig, extra):
         try:
             calc = nsf.neutron_composite_sld(mats) if wl is None else nsf.neutron_composite_sld(mats, wavelength=wl)
         except ContractBreach as exc:
-            violation('%s: postcondition failed while building the calculator: %s' % (label, str(exc)[:500]),
+            violation('%s: postcondition failed while building the calculator: %s' % (label, _breach_text(exc)),
                       symptom='contract', route='composite')
             return
         ctx.count('calculators')
@@ -383,7 +417,7 @@ def _run_block(ctx, case, mats, w, sig, extra):
             try:
                 got = calc(wts, rho) if app['density_positional'] else calc(wts, density=rho)
             except ContractBreach as exc:
-                violation('%s: postcondition failed in the calculator: %s' % (what, str(exc)[:500]),
+                violation('%s: postcondition failed in the calculator: %s' % (what, _breach_text(exc)),
                           symptom='contract', route='composite')
                 continue
             if not np.array_equal(wts, wts_before):
@@ -396,7 +430,7 @@ def _run_block(ctx, case, mats, w, sig, extra):
             try:
                 want = nsf.neutron_sld(tot, density=rho, **kw)
             except ContractBreach as exc:
-                violation('%s: postcondition failed in the direct route: %s' % (what, str(exc)[:500]),
+                violation('%s: postcondition failed in the direct route: %s' % (what, _breach_text(exc)),
                           symptom='contract', route='direct')
                 continue
             ctx.count('applications')
@@ -502,10 +536,13 @@ def finish(ctx):
     ctx.require('contract._sum_piece', 1, 'the postcondition on _sum_piece must have been evaluated')
     ctx.require('contract._calculate_scattering', 1, 'the direct route must have gone through _calculate_scattering')
     ctx.require('reach._compute', 1, 'the calculator closure was never entered')
-    ctx.require('reach.branch.compute_vacuum', 1, 'vacuum branch of the calculator never taken')
-    ctx.require('reach.branch.compute_body', 1, 'non-vacuum branch of the calculator never taken')
-    ctx.require('reach.branch.energy_table', 1, 'energy-table branch of scattering_by_wavelength never entered')
-    ctx.require('reach.branch.constant_b_c', 1, 'constant-b_c branch of scattering_by_wavelength never entered')
+    for label, why in (('branch.compute_vacuum', 'vacuum branch of the calculator never taken'),
+                       ('branch.compute_body', 'non-vacuum branch of the calculator never taken'),
+                       ('branch.energy_table', 'energy-table branch of scattering_by_wavelength never entered'),
+                       ('branch.constant_b_c', 'constant-b_c branch of scattering_by_wavelength never entered')):
+        if label in _state.get('watched', ()):
+            ctx.require('reach.' + label, 1, why)
+    ctx.require('eval.value', 1, 'no non-vacuum comparison of the calculator with the direct route')
     ctx.require('reach.direct_clip_engaged', 1, 'no case with sigma_s < sigma_c: the incoherent clip never engaged')
     ctx.require('reach.incoherent_exactly_zero', 1, 'no case where the clipped incoherent SLD is exactly zero')
     ctx.require('vacuum.zero_weight', 1, 'no zero-total-weight case')
